@@ -321,7 +321,10 @@ func init() {
 		w.pids["R"] = w.pids["PM"]
 		w.recs["R"] = w.recs["M"]
 		w.ex.Thread("S1", func() { sl.add("a", w.n.Send(id, "a")) })
-		w.ex.Thread("S2", func() { sl.add("b", w.n.Send(id, "b")); sl.add("c", w.n.SendWithPriority(id, "c", gen.MessagePriorityHigh)) })
+		w.ex.Thread("S2", func() {
+			sl.add("b", w.n.Send(id, "b"))
+			sl.add("c", w.n.SendWithPriority(id, "c", gen.MessagePriorityHigh))
+		})
 		return false
 	})
 }
